@@ -246,6 +246,21 @@ def cases(rng, n_each=8, trail=True):
         luns = [rand_value(rng, 64) for _ in range(rng.randint(0, 5))]
         body = b"".join(x.to_bytes(8, "big") for x in luns)
         add("reportluns", "ReportLuns", len(body).to_bytes(4, "big") + bytes(4) + body + trailing(rng), dict(luns=luns))
+        # ---- the same three lists cut off by the allocation length at a descriptor boundary: the length field still counts the
+        # whole list (SPC: it is not adjusted for truncation); the descriptors present are returned, nothing is invented
+        if trail:
+            more = rng.randint(1, 40)
+            ds2 = [flat(rng, "getlbastatus_descriptor") for _ in range(rng.randint(0, 3))]
+            body2 = b"".join(bytes(x[0]) for x in ds2)
+            add("getlbastatus", "GetLBAStatus", (4 + len(body2) + 16 * more).to_bytes(4, "big") + bytes(4) + body2, dict(lbas=[x[1] for x in ds2]),
+                note="truncated by the allocation length")
+            luns2 = [rand_value(rng, 64) for _ in range(rng.randint(0, 3))]
+            add("reportluns", "ReportLuns", (8 * (len(luns2) + more)).to_bytes(4, "big") + bytes(4) + b"".join(x.to_bytes(8, "big") for x in luns2),
+                dict(luns=luns2), note="truncated by the allocation length")
+            keys2 = [rand_value(rng, 64) for _ in range(rng.randint(0, 3))]
+            gen2 = rand_value(rng, 32)
+            add("prin_read_keys", "PersistentReserveInReadKeys", gen2.to_bytes(4, "big") + (8 * (len(keys2) + more)).to_bytes(4, "big") +
+                b"".join(k.to_bytes(8, "big") for k in keys2), dict(pr_generation=gen2, reservation_keys=keys2), note="truncated by the allocation length")
         # ---- PR IN
         gen = rand_value(rng, 32)
         keys = [rand_value(rng, 64) for _ in range(rng.randint(0, 5))]
